@@ -1,6 +1,8 @@
 -- GENERATED: axiom audit of the property theorems of C52
 import SquidModel.Properties.C52
 #print axioms SquidModel.C52.less_is_mathematical_comparison
+#print axioms SquidModel.C52.increaseSumInternal_mixed_exact
+#print axioms SquidModel.C52.increaseSumInternal_unsigned_exact
 #print axioms SquidModel.C52.increaseSum2_exact
 #print axioms SquidModel.C52.increaseSum_exact
 #print axioms SquidModel.C52.naturalSum_exact
